@@ -800,6 +800,9 @@ func (a *sideEffectActor) resolveActors(c context.Context, t Transport, r []*url
 			err = nil
 			continue
 		}
+		// The Public collection is never dereferenced, even when it is
+		// listed as a member of a dereferenced collection.
+		more = filterURLs(more, IsPublic)
 		var recurActors []vocab.Type
 		recurActors, err = a.resolveActors(c, t, more, depth+1, maxDepth)
 		if err != nil {
